@@ -155,6 +155,8 @@ func c13(r *core.Run) {
 	r.Explanation = "Static rules over the block-emission path (functions reachable from the jklmint BeginBlock): the value minted, the value recorded as MintedBlock.Minted and the base handed to the three split functions are one SSA value; that value is the result of the recurrence function whose shape is trunc(prev − decrease/blocksPerYear) with prev read from the record keyed height−1 and the new record keyed height; the value is non-negative by an explicit sign guard; each split transfer depends on its own ratio parameter and the base, with recipients {fee collector, constant dev-grants account, Param(StorageStipendAddress)} and no other bank call from the mint module; every path after a successful mint reaches the record write."
 	r.Assumptions = []string{T1, T3, T6}
 	r.NotDecided = []string{"'fewer than three base units remain' (numeric)", "numeric non-increase beyond the shape/sign argument"}
+	r.Rule("C13/R9", "the mint parameters used are the governance-set ones: GetParams of the mint module is a faithful read of the parameter store and each key of its ParamSetPairs is bound to the Params field confirmed for it")
+	r.Rule("C13/R8", "every share of the block emission is converted to whole units by truncation only: the shares cannot add up to more than was minted")
 	r.Rule("C13/R7", "emission records are visited/deleted only through point keys, prefix iterators or ranges with text-safe bounds: no range bound built from a variable-width decimal (the previous block's record must still exist at the next block)")
 	r.Rule("C13/R1", "minted = recorded = split base: one SSA value feeds the mint coin, MintedBlock.Minted and all three split calls")
 	r.Rule("C13/R2", "recurrence shape: emission = TruncateInt64(Sub(prev, Quo(decrease, blocksPerYear))) with prev ⊵ previous emission only and decrease ⊵ Param(MintDecrease) only")
@@ -163,6 +165,8 @@ func c13(r *core.Run) {
 	r.Rule("C13/R5", "recorded on every minting path: every path after the mint call reaches the MintedBlock write")
 	r.Rule("C13/R6", "recurrence link: previous record read with key Ctx.BlockHeight−1, new record written with Height = Ctx.BlockHeight, same prefix")
 	iteratorHygiene(r, "C13/R7", moduleFuncs(p, "jklmint"))
+	paramsGetterFaithful(r, "C13/R9", "jklmint")
+	paramPairsConsistent(r, "C13/R9", "jklmint")
 	bb, _ := p.BlockEntries()
 	var entry *ssa.Function
 	for _, fn := range bb {
@@ -410,6 +414,7 @@ func c13(r *core.Run) {
 		}
 		seen[class] = true
 		baseOK := ap.HasStore(mintPrefix, ".Minted") || ap.HasParams("jklmint", ".TokensPerBlock")
+		roundsDown(r, "C13/R8", construct+":rounds-down", bi.Op.Args[len(bi.Op.Args)-1], p.InstrPos(bi.Op.Instr))
 		r.Check(len(own) == 1 && own[0] == want && baseOK, "C13/R4", construct, p.InstrPos(bi.Op.Instr), "amount ⊵ {"+want+", emission}", fmt.Sprintf("the %s transfer depends on ratios %v (expected only %s) base=%v", class, own, want, baseOK))
 	}
 	for _, c := range []string{"fee-collector", "dev-grants", "stipend"} {
